@@ -310,8 +310,18 @@ PROPS = {
               ["plain", "o0", "o2", "o3", "ndebug-o0", "ndebug-o2", "ndebug-o3", "nocache-o0", "nocache-o2", "nocache-o3", "ngc-o0", "ngc-o2", "ngc-o3"])] +
             [{"scen": "exc", "env": {"threads": 0, "nolib": 1}, "runs": 2500 if tier == "quick" else 40_000, "configs": [c], "first": 30_000_000, "timeout": 30,
               "differential": True, "diff_keys": ["verdict", "hash"]} for c in (["plain", "ndebug-o2", "nocache-o2", "ngc-o2", "o3"] if tier == "quick" else
-              ["plain", "o0", "o2", "o3", "ndebug-o0", "ndebug-o2", "ndebug-o3", "nocache-o0", "nocache-o2", "nocache-o3", "ngc-o0", "ngc-o2", "ngc-o3"])]),
-        "rare_probes": ["new.seq", "new.table", "new.tree", "new.string", "seq.sort", "copy", "assign", "str.print_to", "exc.outer_completes_after_inner_handled"],
+              ["plain", "o0", "o2", "o3", "ndebug-o0", "ndebug-o2", "ndebug-o3", "nocache-o0", "nocache-o2", "nocache-o3", "ngc-o0", "ngc-o2", "ngc-o3"])] +
+            # collector-dependent programs (roots on the stack, in root holders and in thread-local storage; collections): every
+            # configuration that has a collector must reach the same verdict from the reference oracles
+            [{"scen": "heap", "env": {"focus": 1, "avoid_kf": AVOID_KF_HEAP}, "runs": 800 if tier == "quick" else 20_000, "configs": [c], "first": 70_000_000, "chunk": 25,
+              "differential": True, "diff_keys": ["verdict"]} for c in (["plain", "ndebug-o2", "nocache-o2", "o3"] if tier == "quick" else
+              ["plain", "o0", "o3", "ndebug-o0", "ndebug-o2", "nocache-o0", "nocache-o2", "nocache-o3"])] +
+            # exception trees inside worker threads: every configuration must let each thread handle its own exceptions
+            [{"scen": "exc", "env": {"threads": 2, "nolib": 1}, "runs": 800 if tier == "quick" else 30_000, "configs": [c], "first": 80_000_000, "timeout": 30,
+              "differential": True, "diff_keys": ["verdict"]} for c in (["plain", "ndebug-o2", "nocache-o2", "ngc-o2", "o3"] if tier == "quick" else
+              ["plain", "o0", "o3", "ndebug-o2", "nocache-o2", "ngc-o0", "ngc-o2", "ngc-o3"])]),
+        "rare_probes": ["new.seq", "new.table", "new.tree", "new.string", "seq.sort", "copy", "assign", "str.print_to", "exc.outer_completes_after_inner_handled",
+                        "view.iterated", "heap.tls_set", "exc.thread_programs"],
         "assumptions": ["only in-contract programs: error paths behave differently under CELLO_NDEBUG by design", "addresses and Table iteration order are excluded from transcripts"],
     },
 }
